@@ -176,6 +176,20 @@ MUTANTS = [
     dict(id='c14_refactor_epsalg_numpy_table', prop='C14', file=EXT, expect='clean',
          needs='nothing: abs() instead of np.abs() in the vanishing-difference guard',
          edits=[("                if np.abs(delta) <= 1.0e-60:", "                if abs(delta) <= 1.0e-60:")]),
+    dict(id='c09_legit_setter_validation', prop='C09', file=CORE, expect='clean',
+         needs='nothing: the order / n setters reject invalid values with ValueError (the object keeps its '
+               'old configuration); the plan-level model of "current configuration" must not be trusted '
+               'after a setter raised',
+         edits=[("    @order.setter\n    def order(self, order):\n        self.fd_rule.order = order\n",
+                 "    @order.setter\n    def order(self, order):\n"
+                 "        if self.method in ('central', 'complex') and order % 2:\n"
+                 "            raise ValueError('order must be even for method %s' % self.method)\n"
+                 "        self.fd_rule.order = order\n"),
+                ("    @n.setter\n    def n(self, value):\n        self.fd_rule.n = value\n",
+                 "    @n.setter\n    def n(self, value):\n"
+                 "        if value > 4 and self.method == 'forward':\n"
+                 "            raise ValueError('n too large for forward differences')\n"
+                 "        self.fd_rule.n = value\n")]),
     # ------------------------------------------------------------------ equivalent mutant (must NOT be flagged)
     dict(id='c09_equiv_lookup_copy', prop='C09', file=FD, expect='clean',
          needs='nothing: returning a copy of the cached row is behaviour preserving',
